@@ -228,6 +228,10 @@ func (l *listener) removeConn(conn net.Conn) {
 	l.mu.Lock()
 	defer l.mu.Unlock()
 	if l.conns == nil {
+		// the listener is stopped and the registry is gone, but the conn was
+		// counted when it was added.
+		l.stats.CxDestroyTotal.Inc()
+		l.stats.CxActive.Dec()
 		return
 	}
 	if _, ok := l.conns[conn]; !ok {
